@@ -114,6 +114,18 @@ def _intervals(rng):
     return bs
 
 
+def _offset_loop_terminates(pairs):
+    """impose_as's `while pairs:` loop (on the integer labels) -- it spins forever on a cyclic mask"""
+    pairs = [tuple(p) for p in pairs]
+    for _ in range(len(pairs) + 2):
+        if not pairs:
+            return True
+        trac = set(j for _, j in pairs)
+        indx = trac & set(i for i, _ in pairs)
+        pairs = [m for m in pairs if m[0] in indx]
+    return False
+
+
 def _bspecial(bs):
     out = []
     ends = [v for b in bs for v in b if v is not None]
@@ -139,7 +151,7 @@ def generate(rng, n, tier):
                     d = [[k, [[(0.0 if v is None else v) for v in b] for b in bs]] for k, bs in d]
                 sp = [v for _, bs in d for v in _bspecial(bs)]
                 x = [float(rng.choice(sp)) if rng.random() < 0.5 else v for v in x]
-                idx = None if (rng.random() < 0.6 or mode != "clipnear") else rng.sample(range(len(x) + 1), rng.randint(0, 3))
+                idx = None if (rng.random() < 0.6 or mode != "clipnear") else rng.sample(range(len(x) + 1), rng.randint(0, min(3, len(x) + 1)))
                 c.update(form="dict", d=d, idx=idx, mode=mode, x=x)
             else:
                 bs = _intervals(rng)
@@ -195,8 +207,10 @@ def generate(rng, n, tier):
             pairs = pairs[:5]
             rng.shuffle(pairs)
             if rng.random() < 0.15 and pairs:
-                p = rng.choice(pairs)
-                p[rng.randrange(2)] -= len(x)       # a negative alias (may be out of range)
+                a = rng.choice(rng.choice(pairs))   # one entry is named by its negative index everywhere (may be out of range)
+                pairs = [[i - len(x) if i == a else i, j - len(x) if j == a else j] for i, j in pairs]
+            if not _offset_loop_terminates(pairs):
+                pairs = []
             c.update(mask=pairs, offset=rng.choice([None, 0.0, 0.0, 1.0, 0.5, -2.0]), x=x)
         elif t == "unique":
             full = [float(v) for v in rng.sample(range(-3, 9), rng.randint(0, 7))]
@@ -388,9 +402,12 @@ def run_impl(case):
     if case["t"] == "impose_as":
         import mystic.tools as T
         try:
-            obs["groups"] = len(T.connected([tuple(p) for p in case["mask"]]))
+            g = T.connected([tuple(p) for p in case["mask"]])
+            obs["groups"] = len(g)
+            obs["roots"] = [int(k) for k in g]
         except Exception as e:
             obs["groups"] = None
+            obs["roots"] = []
     return obs
 
 
@@ -475,6 +492,8 @@ def oracle(case, obs):
         kept = [i for i in case["index"] if i < n]
         if any(i < -n for i in case["index"]):
             exp_err = {"IndexError"}
+            if isinstance(case["target"], list) and len(case["target"]) not in (len(kept), 1):
+                exp_err.add("ValueError")      # numpy reports the shape mismatch before the bad index
         elif isinstance(case["target"], list) and len(case["target"]) not in (len(kept), 1):
             if len(case["target"]) == len(case["index"]) and all(i >= 0 for i in case["index"]):
                 # docstring: out-of-range indices are dropped (with their targets) -- raising here is finding F11
@@ -496,6 +515,9 @@ def oracle(case, obs):
             exp_err = {"KeyError"}
     elif t in ("with_mean", "with_variance") and n == 0:
         exp_err = {"ZeroDivisionError"}
+    elif t == "suppressed" and n == 0 and not case["clip"] and out.get("error") == "ZeroDivisionError":
+        # nothing to reject in an empty vector: suppress([], clip=False) divides the int 0 by the int 0
+        return [_fail("exactly_addressed_entries", site, "empty-input-clip-false-raises", out)]
     elif t == "with_spread" and n == 0:
         exp_err = {"ValueError"}
 
@@ -540,6 +562,7 @@ def oracle(case, obs):
             per = dict((p, case["bs"]) for p in sel)
         unchanged([p for p in range(n) if p not in per])
         clip = case["mode"] in ("clipnear", "cliprand")
+        malformed = False
         for p, bs in per.items():
             wellformed = all(b[0] is None or b[1] is None or b[0] <= b[1] for b in bs) and bs
             if any(_inb(x[p], b) for b in bs):
@@ -547,6 +570,7 @@ def oracle(case, obs):
                     fails.append(_fail("conforming_unchanged", site, "entry-inside-interval-changed", dict(p=p, x=case["x"][p], y=out["v"][p])))
                 continue
             if not wellformed:
+                malformed = True
                 continue
             if clip or all(b[0] == b[1] for b in bs if None not in b):
                 inside = any(_inb(y[p], b) for b in bs)
@@ -667,9 +691,12 @@ def oracle(case, obs):
         if bad:
             valid = [(i, j) for i, j in case["mask"]]
             bridged = obs.get("groups") is not None and obs["groups"] > _components(valid)
-            fails.append(_fail("in_target", "tools.connected" if bridged else site,
-                               "bridging-pair-groups-not-merged" if bridged else "entry-does-not-track-partner",
-                               dict(pairs=bad, out=out["v"], groups=obs.get("groups"))))
+            if any(_norm(i, n) is None for i, _ in case["mask"]):
+                fails.append(_fail("in_target", site, "out-of-range-partner", dict(pairs=bad, out=out["v"])))
+            else:
+                fails.append(_fail("in_target", "tools.connected" if bridged else site,
+                                   "bridging-pair-groups-not-merged" if bridged else "entry-does-not-track-partner",
+                                   dict(pairs=bad, out=out["v"], groups=obs.get("groups"))))
     elif t == "unique":
         if len(set(y)) != len(y):
             fails.append(_fail("in_target", site, "values-not-pairwise-distinct", out["v"]))
@@ -705,13 +732,15 @@ def oracle(case, obs):
                 c = F(j[1]) if len(j) > 1 else F(1)
                 if pk is not None and pj is not None:
                     exp[pk] = c * exp[pj]
+                    if len(j) == 1:
+                        exp_arr[pk] = exp_arr[pj]     # x[(j,)] is a valid numpy index
             else:
                 pj = _norm(j, n)
                 if pk is not None and pj is not None:
                     exp[pk] = exp[pj]
                     exp_arr[pk] = exp_arr[pj]
         if y != exp:
-            if case["arr"] and y == exp_arr and any(isinstance(j, list) for _, j in case["mask"]):
+            if case["arr"] and y == exp_arr and any(isinstance(j, list) and len(j) > 1 for _, j in case["mask"]):
                 fails.append(_fail("exactly_addressed_entries", site, "ndarray-tuple-source-ignored", dict(out=out["v"], want=[float(v) for v in exp])))
             else:
                 fails.append(_fail("exactly_addressed_entries", site, "not-exactly-the-tied-entries", dict(out=out["v"], want=[float(v) for v in exp])))
@@ -762,7 +791,9 @@ def oracle(case, obs):
 
     # ---------------- applying it twice equals applying it once
     again = obs.get("again")
-    if again is not None and not fails:
+    no_idem_claim = t in ("masked", "synchronized") or (t == "suppressed" and not case["clip"]) or \
+        (t == "bounds" and malformed)
+    if again is not None and not fails and not no_idem_claim:
         tol_cmp = t in ("with_mean", "with_variance", "with_spread", "normalized") or \
             (t == "suppressed" and not case["clip"]) or (t in ("rounded", "precision"))
         if "v" not in again:
@@ -771,10 +802,14 @@ def oracle(case, obs):
         else:
             z = [F(v) for v in again["v"]]
             same = (z == y) or (tol_cmp and len(z) == len(y) and all(_close(a, b) for a, b in zip(z, y)))
-            if t == "masked":
-                same = True          # masked inserts again by design (it rewrites the argument list, not a fixed point map)
             if not same:
-                fails.append(_fail("idempotent", site, "twice-differs-from-once", dict(once=out["v"], twice=again["v"])))
+                pat = "twice-differs-from-once"
+                if t == "impose_as" and (case["offset"] or 0) != 0:
+                    if any(_norm(i, n) is None for i, _ in case["mask"]):
+                        pat = "out-of-range-partner"
+                    elif any(r in [j for _, j in case["mask"]] for r in obs.get("roots", [])):
+                        pat = "offset-with-tracked-group-root-drifts"
+                fails.append(_fail("idempotent", site, pat, dict(once=out["v"], twice=again["v"])))
             if obs.get("again_draws"):
                 fails.append(_fail("idempotent", site, "conforming-input-consumes-random-draws", obs["again_draws"]))
     return fails
@@ -885,6 +920,8 @@ def coq_terms(case, obs):
         if "v" not in out:
             return []
         def src(j):
+            if isinstance(j, list) and len(j) == 1 and case["arr"]:
+                return "(SIdx NumQ %s)" % zlit(j[0])            # x[(j,)] on an ndarray is x[j]
             if isinstance(j, list):
                 return "(SMul NumQ %s %s)" % (zlit(j[0]), qlit(j[1] if len(j) > 1 else 1))
             return "(SIdx NumQ %s)" % zlit(j)
